@@ -425,7 +425,7 @@ static void DecodeJmp(Word Index) {
                         AdrLong -= EProgCounter();
                         DAsmCode[0] = (pOrder->Code << 24) + ((AdrLong & 0x3fc00) << 6)
                                       + (Dest << 8) + ((AdrLong & 0x3fc) >> 2);
-                    } else if (!mSymbolQuestionable(Flags) && (AdrLong > 0x3fffff)) {
+                    } else if (!mSymbolQuestionable(Flags) && (AdrLong > 0x3ffff)) {
                         WrError(ErrNum_JmpDistTooBig);
                     } else {
                         CodeLen     = 4;
